@@ -157,6 +157,8 @@ def seeded(rng, alphabet, weights=None, max_len=12, ids=None, progress_p=0.5, ca
         case["hasToken"] = True
     if rng.random() < 0.25:
         case["debug"] = True  # the host application runs with logging at DEBUG
+    if rng.random() < 0.2:
+        case["idSubclass"] = True  # the caller's id is an instance of a str subclass
     if rng.random() < 0.15:
         # the peer closes its end / stops reading after the request has been written
         case["writer"] = rng.choice(["closed", "blocked", "stalled", "stalled"])
@@ -181,7 +183,7 @@ def shrink_candidates(case):
         yield dict(case, tokenKind="plain")
     if case.get("writer") == "stalled":
         yield dict(case, writer="blocked")
-    for key in ("cbRaises", "hasToken", "params", "writer", "debug", "eos"):
+    for key in ("cbRaises", "hasToken", "params", "writer", "debug", "eos", "idSubclass", "cbAction"):
         if case.get(key):
             c = dict(case)
             c.pop(key)
